@@ -84,7 +84,9 @@ def astype(ev, a, dtype, lineno):
     if k == "i":
         def to_i(x):
             if isinstance(x, NS):
-                raise Unsupported("astype(int) of a possibly-NaN value")
+                # converting NaN to an integer is undefined: safety obligation "not NaN"
+                ev.safety("nan", bnot(x.nan), lineno)
+                x = x.t
             if isinstance(x, bool) or (is_z3(x) and z3.is_bool(x)):
                 return ite(x, 1, 0)
             if not is_z3(x):
